@@ -9,14 +9,6 @@ set_option linter.unusedVariables false
 namespace CV.GenStruct
 open CV CV.GenFlat
 
-theorem Steps.cast {L : Layout} {code : List GLine} {p1 p1' p2 p2' : Nat} {s s' : Cpu}
-    (h : Steps L code p1 s p2 s') (e1 : p1 = p1') (e2 : p2 = p2') : Steps L code p1' s p2' s' := by
-  subst e1 e2; exact h
-
-/-- positions are sums of lengths -/
-macro "len_arith" : tactic =>
-  `(tactic| first | omega | (simp only [List.length_append, List.length_cons, List.length_nil, List.length_singleton] <;> omega))
-
 /-- the run of a piece of code: from `start` to `stop` with final memory `m'` and flag belief `fl` -/
 def Result (L : Layout) (code : List GLine) (start : Nat) (s : Cpu) (stop : Nat) (m' : Mem) (fl : Option String) : Prop :=
   ∃ s', Steps L code start s stop s' ∧ s'.mem = m' ∧ FlagsInv L fl s' ∧ s'.x = s.x ∧ s'.y = s.y ∧ s'.sp = s.sp
@@ -36,7 +28,7 @@ theorem Result.trans {L : Layout} {code : List GLine} {p1 p2 p3 : Nat} {s1 : Cpu
   exact ⟨s3, hs.trans hs', hm', hf', by rw [hx', hx], by rw [hy', hy], by rw [hsp', hsp]⟩
 
 /-- a label that is new for `g` is not defined in code that is old for `g` -/
-theorem not_mem_of_new {g : GState} {pre : List GLine} {l : Lbl} (ho : Old g pre) (hn : g.ctr l.kind.ctr < l.n) :
+theorem not_mem_of_new {g : GState} {pre : List GLine} {l : Lbl} (ho : Old g pre) (hn : g.ctr l.kind.ctr < l.idx) :
     l ∉ labels pre := by
   intro h
   have := ho l h
@@ -84,7 +76,7 @@ theorem case_seq (L : Layout) (f : Nat) (ih : Correct L f) (a b : SStmt) (m m' :
 
 /-- a label allocated before `gx` is not among the labels of code generated from `gx` on -/
 theorem not_mem_of_fresh {gx : GState} {r : List GLine × GState} {l : Lbl} (hf : Fresh gx r)
-    (hl : l.n ≤ gx.ctr l.kind.ctr) : l ∉ labels r.1 := by
+    (hl : l.idx ≤ gx.ctr l.kind.ctr) : l ∉ labels r.1 := by
   intro h
   have := (hf.2 l h).1
   omega
@@ -110,11 +102,11 @@ theorem case_ifThen (L : Layout) (f : Nat) (ih : Correct L f) (c : Cond) (t : SS
   have hnot : (⟨.ifend, g.cIf + 1⟩ : Lbl) ∉ labels (pre ++ cc ++ ct) := by
     simp only [labels_append, List.mem_append, not_or]
     refine ⟨⟨?_, ?_⟩, ?_⟩
-    · exact not_mem_of_new hold (by simp [LKind.ctr, GState.ctr])
-    · exact not_mem_of_fresh hfc (by simp [LKind.ctr, GState.ctr])
+    · exact not_mem_of_new hold (by simp [LKind.ctr, GState.ctr, Lbl.idx])
+    · exact not_mem_of_fresh hfc (by simp [LKind.ctr, GState.ctr, Lbl.idx])
     · have := fresh_ctr_le hfc .cIf
       simp [GState.ctr] at this
-      exact not_mem_of_fresh hft (by simp [LKind.ctr, GState.ctr]; omega)
+      exact not_mem_of_fresh hft (by simp [LKind.ctr, GState.ctr, Lbl.idx]; omega)
   have hfind : findLbl (pre ++ (cc ++ ct ++ [GLine.lab ⟨.ifend, g.cIf + 1⟩]) ++ post) ⟨.ifend, g.cIf + 1⟩
       = some (pre.length + cc.length + ct.length) := by
     have e : pre ++ (cc ++ ct ++ [GLine.lab ⟨.ifend, g.cIf + 1⟩]) ++ post
@@ -130,7 +122,7 @@ theorem case_ifThen (L : Layout) (f : Nat) (ih : Correct L f) (c : Cond) (t : SS
     rw [e]
     simpa [Nat.add_assoc] using this
   -- the condition
-  have hc := genCond_correct L { g with cIf := g.cIf + 1 } c true ⟨.ifend, g.cIf + 1⟩ hfr.1
+  have hc := genCond_correct L c { g with cIf := g.cIf + 1 } true ⟨.ifend, g.cIf + 1⟩ hfr.1
   rw [hcc] at hc
   have hc' := hc pre (ct ++ [GLine.lab ⟨.ifend, g.cIf + 1⟩] ++ post) s (pre.length + cc.length + ct.length) hold0 hinv
     (by simpa [List.append_assoc] using hfind)
@@ -139,12 +131,12 @@ theorem case_ifThen (L : Layout) (f : Nat) (ih : Correct L f) (c : Cond) (t : SS
       = pre ++ (cc ++ ct ++ [GLine.lab ⟨.ifend, g.cIf + 1⟩]) ++ post := by simp
   dsimp only at hs1 hf1
   rw [e1] at hs1
-  rw [hm] at hs1
+  rw [hm] at hs1 hf1
   by_cases hev : evalCond L m c = true
   · -- the body runs
     simp only [hev, if_true] at h
     have hb : (evalCond L m c != true) = false := by simp [hev]
-    simp only [hb, Bool.false_eq_true, if_false] at hs1
+    simp only [hb, Bool.false_eq_true, if_false, Bool.false_and] at hs1 hf1
     have rt := ih t m m' h hfr.2 g1 (pre ++ cc) ([GLine.lab ⟨.ifend, g.cIf + 1⟩] ++ post) s1 hold1 (by rw [hm1, hm]) hf1
     rw [hct] at rt
     dsimp only at rt
@@ -175,14 +167,14 @@ theorem case_ifElse (L : Layout) (f : Nat) (ih : Correct L f) (c : Cond) (t e : 
   simp only [gen]
   rcases hcc : genCond { g with cIf := g.cIf + 1 } c true ⟨.else_, g.cIf + 1⟩ with ⟨cc, g1⟩
   rcases hct : gen g1 t with ⟨ct, g2⟩
-  rcases hce : gen { g2 with flags := g1.flags } e with ⟨ce, g3⟩
+  rcases hce : gen { g2 with flags := if c.singleExit then g1.flags else none } e with ⟨ce, g3⟩
   dsimp only
   generalize hifend : (⟨.ifend, g.cIf + 1⟩ : Lbl) = ifend
   generalize hels : (⟨.else_, g.cIf + 1⟩ : Lbl) = els
   have hfc : Fresh { g with cIf := g.cIf + 1 } (cc, g1) := hcc ▸ genCond_fresh ..
   have hft : Fresh g1 (ct, g2) := hct ▸ gen_fresh t g1
   have hfe : Fresh g2 (ce, g3) := by
-    have := gen_fresh e { g2 with flags := g1.flags }
+    have := gen_fresh e { g2 with flags := if c.singleExit then g1.flags else none }
     rw [hce, fresh_flags_left] at this
     exact this
   have hold0 : Old { g with cIf := g.cIf + 1 } pre := hold.mono (mono_cIf g)
@@ -196,16 +188,16 @@ theorem case_ifElse (L : Layout) (f : Nat) (ih : Correct L f) (c : Cond) (t e : 
     rw [← hels]
     simp only [labels_append, List.mem_append, not_or, labels_jmp, labels_nil, List.not_mem_nil, not_false_eq_true, and_true]
     refine ⟨⟨?_, ?_⟩, ?_⟩
-    · exact not_mem_of_new hold (by simp [LKind.ctr, GState.ctr])
-    · exact not_mem_of_fresh hfc (by simp [LKind.ctr, GState.ctr])
-    · exact not_mem_of_fresh hft (by simp [LKind.ctr, GState.ctr]; omega)
+    · exact not_mem_of_new hold (by simp [LKind.ctr, GState.ctr, Lbl.idx])
+    · exact not_mem_of_fresh hfc (by simp [LKind.ctr, GState.ctr, Lbl.idx])
+    · exact not_mem_of_fresh hft (by simp [LKind.ctr, GState.ctr, Lbl.idx]; omega)
   have hnot_ifend : ifend ∉ labels (pre ++ cc ++ ct ++ [GLine.jmp ifend, .lab els] ++ ce) := by
     simp only [labels_append, List.mem_append, not_or, labels_jmp, labels_lab, labels_nil, List.mem_singleton]
     refine ⟨⟨⟨⟨?_, ?_⟩, ?_⟩, fun e => hneq e.symm⟩, ?_⟩
-    · rw [← hifend]; exact not_mem_of_new hold (by simp [LKind.ctr, GState.ctr])
-    · rw [← hifend]; exact not_mem_of_fresh hfc (by simp [LKind.ctr, GState.ctr])
-    · rw [← hifend]; exact not_mem_of_fresh hft (by simp [LKind.ctr, GState.ctr]; omega)
-    · rw [← hifend]; exact not_mem_of_fresh hfe (by simp [LKind.ctr, GState.ctr]; omega)
+    · rw [← hifend]; exact not_mem_of_new hold (by simp [LKind.ctr, GState.ctr, Lbl.idx])
+    · rw [← hifend]; exact not_mem_of_fresh hfc (by simp [LKind.ctr, GState.ctr, Lbl.idx])
+    · rw [← hifend]; exact not_mem_of_fresh hft (by simp [LKind.ctr, GState.ctr, Lbl.idx]; omega)
+    · rw [← hifend]; exact not_mem_of_fresh hfe (by simp [LKind.ctr, GState.ctr, Lbl.idx]; omega)
   -- the whole code in the shapes needed below
   have w1 : pre ++ (cc ++ ct ++ [GLine.jmp ifend, .lab els] ++ ce ++ [.lab ifend]) ++ post
       = (pre ++ cc ++ ct ++ [GLine.jmp ifend]) ++ GLine.lab els :: (ce ++ [.lab ifend] ++ post) := by simp
@@ -235,7 +227,7 @@ theorem case_ifElse (L : Layout) (f : Nat) (ih : Correct L f) (c : Cond) (t e : 
     rw [← w2] at this
     exact this.cast (by len_arith) (by len_arith)
   -- the condition
-  have hc := genCond_correct L { g with cIf := g.cIf + 1 } c true els hokc
+  have hc := genCond_correct L c { g with cIf := g.cIf + 1 } true els hokc
   rw [hels] at hcc
   rw [hcc] at hc
   have hc' := hc pre (ct ++ [GLine.jmp ifend, .lab els] ++ ce ++ [.lab ifend] ++ post) s
@@ -243,10 +235,11 @@ theorem case_ifElse (L : Layout) (f : Nat) (ih : Correct L f) (c : Cond) (t e : 
   obtain ⟨s1, hs1, hm1, hx1, hy1, hsp1, hf1⟩ := hc'
   dsimp only at hs1 hf1
   rw [← w3, hm] at hs1
+  rw [hm] at hf1
   by_cases hev : evalCond L m c = true
   · simp only [hev, if_true] at h
     have hb : (evalCond L m c != true) = false := by simp [hev]
-    simp only [hb, Bool.false_eq_true, if_false] at hs1
+    simp only [hb, Bool.false_eq_true, if_false, Bool.false_and] at hs1 hf1
     have rt := ih t m m' h hfrt g1 (pre ++ cc) ([GLine.jmp ifend, .lab els] ++ ce ++ [.lab ifend] ++ post) s1 hold1
       (by rw [hm1, hm]) hf1
     rw [hct] at rt
@@ -264,22 +257,24 @@ theorem case_ifElse (L : Layout) (f : Nat) (ih : Correct L f) (c : Cond) (t e : 
   · have hev' : evalCond L m c = false := by simpa using hev
     simp only [hev', Bool.false_eq_true, if_false] at h
     have hb : (evalCond L m c != true) = true := by simp [hev']
-    simp only [hb, if_true] at hs1
+    simp only [hb, if_true, Bool.true_and] at hs1 hf1
+    have hf1' : FlagsInv L (if c.singleExit = true then g1.flags else none) s1 := by
+      cases hse : c.singleExit <;> simp [hse] at hf1 ⊢ <;> exact hf1
     -- the else label
     have hl : Steps L whole (pre.length + cc.length + ct.length + 1) s1 (pre.length + cc.length + ct.length + 2) s1 := by
       have := Steps.single (step_lab L (pre ++ cc ++ ct ++ [GLine.jmp ifend]) (ce ++ [.lab ifend] ++ post) els s1)
       rw [← w1] at this
       exact this.cast (by len_arith) (by len_arith)
-    have hold2 : Old { g2 with flags := g1.flags } (pre ++ cc ++ ct ++ [GLine.jmp ifend, .lab els]) := by
+    have hold2 : Old { g2 with flags := if c.singleExit then g1.flags else none } (pre ++ cc ++ ct ++ [GLine.jmp ifend, .lab els]) := by
       rw [old_flags]
       refine ((hold1.mono hft.1).append (Old.of_fresh hft)).append ?_
       intro l hl
       simp at hl
       subst hl
       rw [← hels]
-      simp [LKind.ctr, GState.ctr]; omega
-    have re := ih e m m' h hfre { g2 with flags := g1.flags } (pre ++ cc ++ ct ++ [GLine.jmp ifend, .lab els])
-      ([GLine.lab ifend] ++ post) s1 hold2 (by rw [hm1, hm]) hf1
+      simp [LKind.ctr, GState.ctr, Lbl.idx]; omega
+    have re := ih e m m' h hfre { g2 with flags := if c.singleExit then g1.flags else none } (pre ++ cc ++ ct ++ [GLine.jmp ifend, .lab els])
+      ([GLine.lab ifend] ++ post) s1 hold2 (by rw [hm1, hm]) hf1'
     rw [hce] at re
     dsimp only at re
     rw [← w6] at re
@@ -327,17 +322,17 @@ theorem case_while (L : Layout) (f : Nat) (ih : Correct L f) (c : Cond) (b : SSt
     simp at hl
     subst hl
     rw [← hwl]
-    simp [LKind.ctr, GState.ctr]
+    simp [LKind.ctr, GState.ctr, Lbl.idx]
   have hold1 : Old g1 (pre ++ [GLine.lab wl] ++ cc) := (hold0.mono hfc.1).append (Old.of_fresh hfc)
   have hnot_wl : wl ∉ labels pre := by
-    rw [← hwl]; exact not_mem_of_new hold (by simp [LKind.ctr, GState.ctr])
+    rw [← hwl]; exact not_mem_of_new hold (by simp [LKind.ctr, GState.ctr, Lbl.idx])
   have hnot_we : we ∉ labels (pre ++ [GLine.lab wl] ++ cc ++ cb ++ [GLine.jmp wl]) := by
     simp only [labels_append, List.mem_append, not_or, labels_jmp, labels_lab, labels_nil, List.mem_singleton,
       List.not_mem_nil, not_false_eq_true, and_true]
     refine ⟨⟨⟨?_, hneq⟩, ?_⟩, ?_⟩
-    · rw [← hwe]; exact not_mem_of_new hold (by simp [LKind.ctr, GState.ctr])
-    · rw [← hwe]; exact not_mem_of_fresh hfc (by simp [LKind.ctr, GState.ctr])
-    · rw [← hwe]; exact not_mem_of_fresh hfb (by simp [LKind.ctr, GState.ctr]; omega)
+    · rw [← hwe]; exact not_mem_of_new hold (by simp [LKind.ctr, GState.ctr, Lbl.idx])
+    · rw [← hwe]; exact not_mem_of_fresh hfc (by simp [LKind.ctr, GState.ctr, Lbl.idx])
+    · rw [← hwe]; exact not_mem_of_fresh hfb (by simp [LKind.ctr, GState.ctr, Lbl.idx]; omega)
   have w0 : pre ++ ([GLine.lab wl] ++ cc ++ cb ++ [GLine.jmp wl, .lab we]) ++ post
       = pre ++ GLine.lab wl :: (cc ++ cb ++ [GLine.jmp wl, .lab we] ++ post) := by simp
   have w1 : pre ++ ([GLine.lab wl] ++ cc ++ cb ++ [GLine.jmp wl, .lab we]) ++ post
@@ -361,7 +356,7 @@ theorem case_while (L : Layout) (f : Nat) (ih : Correct L f) (c : Cond) (b : SSt
     have := Steps.single (step_lab L pre (cc ++ cb ++ [GLine.jmp wl, .lab we] ++ post) wl s)
     rw [← w0] at this; exact this
   -- the condition
-  have hc := genCond_correct L { g with cWhile := g.cWhile + 1, flags := none } c true we hokc
+  have hc := genCond_correct L c { g with cWhile := g.cWhile + 1, flags := none } true we hokc
   rw [hwe] at hcc
   rw [hcc] at hc
   have hc' := hc (pre ++ [GLine.lab wl]) (cb ++ [GLine.jmp wl, .lab we] ++ post) s
@@ -369,10 +364,11 @@ theorem case_while (L : Layout) (f : Nat) (ih : Correct L f) (c : Cond) (b : SSt
   obtain ⟨s1, hs1, hm1, hx1, hy1, hsp1, hf1⟩ := hc'
   dsimp only at hs1 hf1
   rw [← w2, hm] at hs1
+  rw [hm] at hf1
   by_cases hev : evalCond L m c = true
   · simp only [hev, if_true] at h
     have hb : (evalCond L m c != true) = false := by simp [hev]
-    simp only [hb, Bool.false_eq_true, if_false] at hs1
+    simp only [hb, Bool.false_eq_true, if_false, Bool.false_and] at hs1 hf1
     cases hb1 : sem L f m b with
     | none => simp [hb1] at h
     | some m1 =>
@@ -434,10 +430,10 @@ theorem case_doWhile (L : Layout) (f : Nat) (ih : Correct L f) (c : Cond) (b : S
     simp at hl
     subst hl
     rw [← hdl]
-    simp [LKind.ctr, GState.ctr]
+    simp [LKind.ctr, GState.ctr, Lbl.idx]
   have hold1 : Old g1 (pre ++ [GLine.lab dl] ++ cb) := (hold0.mono hfb.1).append (Old.of_fresh hfb)
   have hnot_dl : dl ∉ labels pre := by
-    rw [← hdl]; exact not_mem_of_new hold (by simp [LKind.ctr, GState.ctr])
+    rw [← hdl]; exact not_mem_of_new hold (by simp [LKind.ctr, GState.ctr, Lbl.idx])
   have w0 : pre ++ ([GLine.lab dl] ++ cb ++ cc ++ [GLine.lab de]) ++ post
       = pre ++ GLine.lab dl :: (cb ++ cc ++ [GLine.lab de] ++ post) := by simp
   have w1 : pre ++ ([GLine.lab dl] ++ cb ++ cc ++ [GLine.lab de]) ++ post
@@ -468,7 +464,7 @@ theorem case_doWhile (L : Layout) (f : Nat) (ih : Correct L f) (c : Cond) (b : S
     obtain ⟨s1, hs1, hm1, hf1, hx1, hy1, hsp1⟩ := rb
     have hs1' : Steps L whole (pre.length + 1) s (pre.length + 1 + cb.length) s1 := hs1.cast (by len_arith) (by len_arith)
     -- the condition
-    have hc := genCond_correct L g1 c false dl hokc
+    have hc := genCond_correct L c g1 false dl hokc
     rw [hdl] at hcc
     rw [hcc] at hc
     have hc' := hc (pre ++ [GLine.lab dl] ++ cb) ([GLine.lab de] ++ post) s1 pre.length hold1 hf1
@@ -544,29 +540,29 @@ theorem case_for (L : Layout) (f : Nat) (ihs : ∀ j, j ≤ f → Correct L j) (
     intro l hl
     simp at hl
     subst hl
-    rw [← hfl]; simp [LKind.ctr, GState.ctr]; omega
+    rw [← hfl]; simp [LKind.ctr, GState.ctr, Lbl.idx]; omega
   have hold_c : Old { g3 with flags := some (target u) } (pre ++ ci ++ c1 ++ [GLine.lab fl] ++ cb ++ [GLine.lab fu] ++ cu) := by
     rw [old_flags]
     refine old_nolabels ((((old_flags g2 none _).mp hold_b |>.mono hfb.1).append (Old.of_fresh hfb)).append ?_) hlcu
     intro l hl
     simp at hl
     subst hl
-    rw [← hfu]; simp [LKind.ctr, GState.ctr]; omega
+    rw [← hfu]; simp [LKind.ctr, GState.ctr, Lbl.idx]; omega
   have hne1 : fe ≠ fl := by rw [← hfe, ← hfl]; simp
   have hne2 : fe ≠ fu := by rw [← hfe, ← hfu]; simp
   have hnot_fl : fl ∉ labels (pre ++ ci ++ c1) := by
     simp only [labels_append, List.mem_append, not_or, hlci, List.not_mem_nil, not_false_eq_true, and_true]
     refine ⟨?_, ?_⟩
-    · rw [← hfl]; exact not_mem_of_new hold (by simp [LKind.ctr, GState.ctr])
-    · rw [← hfl]; exact not_mem_of_fresh hf1 (by simp [LKind.ctr, GState.ctr])
+    · rw [← hfl]; exact not_mem_of_new hold (by simp [LKind.ctr, GState.ctr, Lbl.idx])
+    · rw [← hfl]; exact not_mem_of_fresh hf1 (by simp [LKind.ctr, GState.ctr, Lbl.idx])
   have hnot_fe : fe ∉ labels (pre ++ ci ++ c1 ++ [GLine.lab fl] ++ cb ++ [GLine.lab fu] ++ cu ++ c2) := by
     simp only [labels_append, List.mem_append, not_or, hlci, hlcu, List.not_mem_nil, not_false_eq_true, and_true,
       labels_lab, labels_nil, List.mem_singleton]
     refine ⟨⟨⟨⟨⟨?_, ?_⟩, hne1⟩, ?_⟩, hne2⟩, ?_⟩
-    · rw [← hfe]; exact not_mem_of_new hold (by simp [LKind.ctr, GState.ctr])
-    · rw [← hfe]; exact not_mem_of_fresh hf1 (by simp [LKind.ctr, GState.ctr])
-    · rw [← hfe]; exact not_mem_of_fresh hfb (by simp [LKind.ctr, GState.ctr]; omega)
-    · rw [← hfe]; exact not_mem_of_fresh hf2 (by simp [LKind.ctr, GState.ctr]; omega)
+    · rw [← hfe]; exact not_mem_of_new hold (by simp [LKind.ctr, GState.ctr, Lbl.idx])
+    · rw [← hfe]; exact not_mem_of_fresh hf1 (by simp [LKind.ctr, GState.ctr, Lbl.idx])
+    · rw [← hfe]; exact not_mem_of_fresh hfb (by simp [LKind.ctr, GState.ctr, Lbl.idx]; omega)
+    · rw [← hfe]; exact not_mem_of_fresh hf2 (by simp [LKind.ctr, GState.ctr, Lbl.idx]; omega)
   -- shapes of the whole code
   have w0 : pre ++ (ci ++ c1 ++ [GLine.lab fl] ++ cb ++ [GLine.lab fu] ++ cu ++ c2 ++ [GLine.lab fe]) ++ post
       = pre ++ ci ++ (c1 ++ [GLine.lab fl] ++ cb ++ [GLine.lab fu] ++ cu ++ c2 ++ [GLine.lab fe] ++ post) := by simp
@@ -655,7 +651,7 @@ theorem case_for (L : Layout) (f : Nat) (ihs : ∀ j, j ≤ f → Correct L j) (
                 hs3.cast (by len_arith) (by len_arith)
               have hmem3 : s3.mem = m2 := by rw [hm3, hm2, hbody]
               -- second condition
-              have hc := genCond_correct L { g3 with flags := some (target u) } c false fl hokc
+              have hc := genCond_correct L c { g3 with flags := some (target u) } false fl hokc
               rw [hfl] at hc2
               rw [hc2] at hc
               have hc' := hc (pre ++ ci ++ c1 ++ [GLine.lab fl] ++ cb ++ [GLine.lab fu] ++ cu) ([GLine.lab fe] ++ post) s3
@@ -685,7 +681,7 @@ theorem case_for (L : Layout) (f : Nat) (ihs : ∀ j, j ≤ f → Correct L j) (
     (c1 ++ [GLine.lab fl] ++ cb ++ [GLine.lab fu] ++ cu ++ c2 ++ [GLine.lab fe] ++ post) s
   rw [hci, ← w0] at hsa
   -- the first condition
-  have hc := genCond_correct L { g with cFor := g.cFor + 1, flags := some (target i) } c true fe hokc
+  have hc := genCond_correct L c { g with cFor := g.cFor + 1, flags := some (target i) } true fe hokc
   rw [hfe] at hc1
   rw [hc1] at hc
   have hc' := hc (pre ++ ci) ([GLine.lab fl] ++ cb ++ [GLine.lab fu] ++ cu ++ c2 ++ [GLine.lab fe] ++ post) sa
